@@ -170,8 +170,8 @@ Record rstate := {
   s_blocks : list block;
   s_modified : option json;                 (* modified_context *)
   s_partials : list (str * template);       (* inline partials *)
-  s_pb_stack : list template;               (* partial_block_stack *)
-  s_pb_depth : Z;                           (* partial_block_depth (isize) *)
+  s_pb_stack : list (template * Z);         (* partial_block_stack, most recent first: body, and the depth current where it was written *)
+  s_pb_depth : Z;                           (* partial_block_depth: which entry @partial-block denotes, counted from the oldest, from 1; 0 = none *)
   s_local_helpers : list (str * helper_id);
   s_current : option str;                   (* current_template *)
   s_root : option str;                      (* root_template *)
@@ -190,7 +190,7 @@ Definition st_init (root : option str) (dev : option (list (str * template)))
            (fail_at : option N) : rstate :=
   {| s_blocks := [block_new]; s_modified := None; s_partials := []; s_pb_stack := [];
      s_pb_depth := 0%Z; s_local_helpers := []; s_current := None; s_root := root;
-     s_disable_escape := false; s_trailing_newline := false; s_content_produced := false;
+     s_disable_escape := false; s_trailing_newline := true; s_content_produced := false;
      s_indent_before_write := false; s_indent := None; s_dev := dev;
      s_out := out_new fail_at; s_log := []; s_esc_trace := [] |}.
 
